@@ -404,17 +404,21 @@ func resolveUnionBatch(ctx context.Context, sources []interface{}, typ *Union, s
 	var workUnits []*WorkUnit
 	for srcType, sources := range sourcesByType {
 		gqlType := typ.Types[srcType]
+		// Resolve each member once, against the union-level selections
+		// (__typename) plus every fragment on that member; Flatten merges them
+		// and evaluates the fragments' directives.
+		memberSelectionSet := &SelectionSet{Selections: selectionSet.Selections}
 		for _, fragment := range selectionSet.Fragments {
 			if fragment.On != srcType {
 				continue
 			}
-			units, err := resolveObjectBatch(ctx, sources, gqlType, fragment.SelectionSet, destinationsByType[srcType])
-			if err != nil {
-				return nil, err
-			}
-			workUnits = append(workUnits, units...)
+			memberSelectionSet.Fragments = append(memberSelectionSet.Fragments, fragment)
 		}
-
+		units, err := resolveObjectBatch(ctx, sources, gqlType, memberSelectionSet, destinationsByType[srcType])
+		if err != nil {
+			return nil, err
+		}
+		workUnits = append(workUnits, units...)
 	}
 	return workUnits, nil
 }
